@@ -1,5 +1,6 @@
 import RustCcModel.Proofs.CtlSimp
 import RustCcModel.Proofs.LifeHist
+import RustCcModel.Proofs.FinOnce
 /-! # C05 — finalizers run only on garbage, once, and before any drop of the same set
 
 Step-level facts: the finalized flag is set *before* the finalizer is called (so it is never called
@@ -79,5 +80,25 @@ theorem dropCc_sets_flag_before_call (c : Cfg) (w : World) (x : Id)
     rcases hm with h | h <;> simp [h]
   rw [if_neg h1, if_pos hrc]
   simp [hf, hnf, push, upd]
+
+/-- **At most once per object unless re-armed**: in the log of every history of the running machine (`HistC … x w log nr`:
+`nr` = number of steps that cleared the finalized flag of `x`) the number of `finalize x` events is at most `1 + nr` —
+by a potential argument over every micro-step (`Proofs/FinOnce.lean`): a finalizer call is always paid for by the flag
+going from clear to set. -/
+theorem finalize_at_most_once_unless_rearmed (c : Cfg) (nH nW nK : Nat) (x : Id) (w : World) (log : List Event) (nr : Nat)
+    (h : HistC c nH nW nK x w log nr) : (vEv log).count (false, x) ≤ 1 + nr := by
+  have := histC_finalize_once c nH nW nK x w log nr h
+  omega
+
+/-- … in particular exactly "at most once" when the object was never re-armed. -/
+theorem finalize_at_most_once (c : Cfg) (nH nW nK : Nat) (x : Id) (w : World) (log : List Event)
+    (h : HistC c nH nW nK x w log 0) : (vEv log).count (false, x) ≤ 1 :=
+  finalize_at_most_once_unless_rearmed c nH nW nK x w log 0 h
+
+/-- The only step that clears the flag of an allocated object is `finalize_again` on a pointer to it. -/
+theorem only_finalize_again_rearms (c : Cfg) (w : World) (hm : w.mode = .running) (x : Id) (hlt : x < w.next)
+    (hr : rearmed w (step c w) x = 1) :
+    ∃ k ops self wc top rest, w.stack = .script (.finAgain k :: ops) self wc top :: rest ∧ w.getH k = some x :=
+  rearm_only_by_finalize_again c w hm x hlt hr
 
 end RustCc.C05
